@@ -403,3 +403,122 @@ pub fn has_multiple_root(c: &[i64]) -> bool {
         b = r;
     }
 }
+
+fn sign_variations(seq: &[i32]) -> usize {
+    let nz: Vec<i32> = seq.iter().cloned().filter(|s| *s != 0).collect();
+    nz.windows(2).filter(|w| w[0] != w[1]).count()
+}
+
+/// Exact number of DISTINCT real roots of an integer polynomial (descending coefficients), by a
+/// Sturm chain built with sign-preserving pseudo-remainders (only positive multipliers) in i128.
+pub fn count_real_roots(c: &[i64]) -> usize {
+    let mut p0: Vec<i128> = c.iter().map(|x| *x as i128).collect();
+    while p0.first() == Some(&0) {
+        p0.remove(0);
+    }
+    let n = p0.len().saturating_sub(1);
+    if n == 0 {
+        return 0;
+    }
+    let mut p1: Vec<i128> = (0..n).map(|j| p0[j] * (n - j) as i128).collect();
+    let content = |p: &mut Vec<i128>| {
+        let g = p.iter().fold(0i128, |g, x| igcd(g, *x));
+        if g > 1 {
+            p.iter_mut().for_each(|x| *x /= g);
+        }
+    };
+    content(&mut p0);
+    content(&mut p1);
+    let mut chain: Vec<Vec<i128>> = vec![p0, p1];
+    loop {
+        let a = &chain[chain.len() - 2];
+        let b = &chain[chain.len() - 1];
+        if b.len() <= 1 {
+            break;
+        }
+        let mut r = a.clone();
+        while r.len() >= b.len() {
+            let lb = b[0];
+            let lr = r[0];
+            let m = lb.abs();
+            let sgn = lb.signum();
+            for x in r.iter_mut() {
+                *x *= m;
+            }
+            for (k, y) in b.iter().enumerate() {
+                r[k] -= sgn * lr * y;
+            }
+            debug_assert!(r[0] == 0);
+            r.remove(0);
+            let g = r.iter().fold(0i128, |g, x| igcd(g, *x));
+            if g > 1 {
+                r.iter_mut().for_each(|x| *x /= g);
+            }
+        }
+        while r.first() == Some(&0) {
+            r.remove(0);
+        }
+        if r.is_empty() {
+            break;
+        }
+        let next: Vec<i128> = r.iter().map(|x| -x).collect();
+        chain.push(next);
+    }
+    let at_pos: Vec<i32> = chain.iter().map(|p| p[0].signum() as i32).collect();
+    let at_neg: Vec<i32> = chain.iter().map(|p| (p[0].signum() as i32) * if (p.len() - 1) % 2 == 0 { 1 } else { -1 }).collect();
+    sign_variations(&at_neg) - sign_variations(&at_pos)
+}
+
+/// All complex roots of a monic polynomial with simple roots (descending real coefficients) by the
+/// Durand-Kerner iteration in f64. Only used to name the input class of a convergence failure.
+pub fn roots_dk(c: &[f64]) -> Vec<C> {
+    let n = c.len() - 1;
+    let radius = 1.0 + c.iter().skip(1).fold(0.0f64, |m, x| m.max(x.abs()));
+    let mut z: Vec<C> = (0..n)
+        .map(|k| {
+            let ang = 2.0 * std::f64::consts::PI * k as f64 / n as f64 + 0.4;
+            (0.5 * radius * ang.cos(), 0.5 * radius * ang.sin())
+        })
+        .collect();
+    for _ in 0..2000 {
+        let mut moved = 0.0f64;
+        for i in 0..n {
+            let mut p: C = (0.0, 0.0);
+            for &cj in c {
+                p = cmul(p, z[i]);
+                p.0 += cj;
+            }
+            let mut q: C = (1.0, 0.0);
+            for j in 0..n {
+                if j != i {
+                    q = cmul(q, (z[i].0 - z[j].0, z[i].1 - z[j].1));
+                }
+            }
+            let den = q.0 * q.0 + q.1 * q.1;
+            if den == 0.0 {
+                continue;
+            }
+            let step = ((p.0 * q.0 + p.1 * q.1) / den, (p.1 * q.0 - p.0 * q.1) / den);
+            z[i] = (z[i].0 - step.0, z[i].1 - step.1);
+            moved = moved.max(cabs(step));
+        }
+        if moved <= 1e-15 * radius {
+            break;
+        }
+    }
+    z
+}
+
+/// Input class of a simple spectrum: all eigenvalues of (nearly) the same modulus — the situation
+/// in which the standard double shift stalls and the exceptional shifts are needed — or not.
+pub fn spectrum_class(z: &[C]) -> &'static str {
+    let hi = z.iter().map(|x| cabs(*x)).fold(0.0f64, f64::max);
+    let lo = z.iter().map(|x| cabs(*x)).fold(f64::INFINITY, f64::min);
+    if z.len() >= 2 && hi - lo <= 1e-6 * hi {
+        ":simple-equimodular-spectrum"
+    } else if z.iter().all(|x| x.1.abs() > 1e-9 * hi) {
+        ":simple-nonreal-spectrum"
+    } else {
+        ":simple-spectrum"
+    }
+}
